@@ -1,4 +1,5 @@
 import Afkak.BrokerClient
+import Afkak.BrokerClientR
 import Afkak.Bootstrap
 /-!
 # Monitor for C06 — what the property demands of an observed trace of a broker connection
@@ -212,6 +213,64 @@ def rFirstBad (m : RSt) (n : Nat) : List (Ev × List Ob) → Option Nat
     | some m' => rFirstBad m' (n + 1) ts
 
 def routesOk (tr : List (Ev × List Ob)) : Bool := (rFirstBad RSt.init 0 tr).isNone
+
+/-! ## Re-entrant callbacks
+
+Traces of `Afkak/BrokerClientR.lean` (and of the implementation driven with callbacks that call back
+into the broker client): the observation stream carries the markers `made`, `closing`,
+`hookBegin`/`hookEnd`.  What C06 demands of such a stream, whatever runs re-entrantly:
+
+* a Deferred fires only after it was handed out, and at most once;
+* `ok b` only with a packet that carries the request's correlation id;
+* exactly once at `close()`: every Deferred that is unfired when a `close()` goes ahead has fired by
+  the time that `close()` call is over (the end of the step for a top-level call, the matching
+  `hookEnd` for a re-entrant one) — `close()` may not be derailed by what the callbacks do. -/
+
+structure RM where
+  made : List Nat
+  fired : List Nat
+  depth : Nat
+  /-- a `close()` is running: (hook depth at which it started, serials unfired then) -/
+  mustFire : Option (Nat × List Nat)
+  ok : Bool
+  deriving DecidableEq, Repr
+
+def RM.init : RM := { made := [], fired := [], depth := 0, mustFire := none, ok := true }
+
+open Afkak.BrokerClientR in
+def r06Ob (m : RM) : ObR → RM
+  | .made k _ => { m with made := k :: m.made, ok := m.ok && !m.made.contains k }
+  | .ob (.fire k i r) =>
+    let own := match r with
+      | .ok b => corrId b == some i
+      | _ => true
+    { m with fired := k :: m.fired, ok := m.ok && m.made.contains k && !m.fired.contains k && own }
+  | .closing => { m with mustFire := some (m.depth, m.made.filter (fun k => !m.fired.contains k)) }
+  | .hookBegin _ => { m with depth := m.depth + 1 }
+  | .hookEnd =>
+    match m.mustFire with
+    | some (d, l) =>
+      if d == m.depth then { m with depth := m.depth - 1, mustFire := none, ok := m.ok && m.depth != 0 && l.all (fun k => m.fired.contains k) }
+      else { m with depth := m.depth - 1, ok := m.ok && m.depth != 0 }
+    | none => { m with depth := m.depth - 1, ok := m.ok && m.depth != 0 }
+  | .fuelOut => { m with ok := false }
+  | _ => m
+
+/-- end of a top-level step: all hooks have returned; a top-level `close()` is over -/
+def r06End (m : RM) : RM :=
+  match m.mustFire with
+  | some (_, l) => { m with mustFire := none, ok := m.ok && m.depth == 0 && l.all (fun k => m.fired.contains k) }
+  | none => { m with ok := m.ok && m.depth == 0 }
+
+open Afkak.BrokerClientR in
+def r06FirstBad (m : RM) (n : Nat) : List (EvR × List ObR) → Option Nat
+  | [] => none
+  | t :: ts =>
+    let m' := r06End (t.2.foldl r06Ob m)
+    if m'.ok then r06FirstBad m' (n + 1) ts else some n
+
+open Afkak.BrokerClientR in
+def r06 (tr : List (EvR × List ObR)) : Bool := (r06FirstBad RM.init 0 tr).isNone
 
 /-! ## Bootstrap connection -/
 
